@@ -39,20 +39,20 @@ func (c *verifAdvEnfSendConn) Write(b []byte, _ uint16, _ protocol.ECN) error {
 	c.mu.Unlock()
 	return nil
 }
-func (c *verifAdvEnfSendConn) WriteTo([]byte, net.Addr) error       { return nil }
-func (c *verifAdvEnfSendConn) Close() error                         { return nil }
-func (c *verifAdvEnfSendConn) LocalAddr() net.Addr                  { return c.local }
-func (c *verifAdvEnfSendConn) RemoteAddr() net.Addr                 { return c.remote }
+func (c *verifAdvEnfSendConn) WriteTo([]byte, net.Addr) error        { return nil }
+func (c *verifAdvEnfSendConn) Close() error                          { return nil }
+func (c *verifAdvEnfSendConn) LocalAddr() net.Addr                   { return c.local }
+func (c *verifAdvEnfSendConn) RemoteAddr() net.Addr                  { return c.remote }
 func (c *verifAdvEnfSendConn) ChangeRemoteAddr(net.Addr, packetInfo) {}
-func (c *verifAdvEnfSendConn) capabilities() connCapabilities       { return connCapabilities{} }
+func (c *verifAdvEnfSendConn) capabilities() connCapabilities        { return connCapabilities{} }
 
 type verifAdvEnfRunner struct{}
 
-func (verifAdvEnfRunner) Add(protocol.ConnectionID, packetHandler) bool                  { return true }
-func (verifAdvEnfRunner) Remove(protocol.ConnectionID)                                   {}
+func (verifAdvEnfRunner) Add(protocol.ConnectionID, packetHandler) bool                    { return true }
+func (verifAdvEnfRunner) Remove(protocol.ConnectionID)                                     {}
 func (verifAdvEnfRunner) ReplaceWithClosed([]protocol.ConnectionID, []byte, time.Duration) {}
-func (verifAdvEnfRunner) AddResetToken(protocol.StatelessResetToken, packetHandler)      {}
-func (verifAdvEnfRunner) RemoveResetToken(protocol.StatelessResetToken)                  {}
+func (verifAdvEnfRunner) AddResetToken(protocol.StatelessResetToken, packetHandler)        {}
+func (verifAdvEnfRunner) RemoveResetToken(protocol.StatelessResetToken)                    {}
 
 // VerifAdvEnfConn wraps the constructed (not running) client connection.
 type VerifAdvEnfConn struct {
@@ -212,11 +212,11 @@ func (v *VerifAdvEnfConn) Enforced() VerifAdvEnfEnforced { return VerifAdvEnfRea
 
 // VerifAdvEnfPeer: the peer's (server's) transport parameters as far as they matter here.
 type VerifAdvEnfPeer struct {
-	MaxIdleTimeout                                         time.Duration
+	MaxIdleTimeout                                                           time.Duration
 	InitialMaxData, StreamDataBidiLocal, StreamDataBidiRemote, StreamDataUni uint64
-	MaxBidiStreams, MaxUniStreams                          uint64
-	ActiveConnectionIDLimit                                uint64
-	MaxDatagramFrameSize                                   int64
+	MaxBidiStreams, MaxUniStreams                                            uint64
+	ActiveConnectionIDLimit                                                  uint64
+	MaxDatagramFrameSize                                                     int64
 }
 
 // ApplyPeer does what the run loop does when the handshake completes: stores the peer's
